@@ -89,7 +89,14 @@ impl ClockHooks for Hooks {
 
 impl FileHooks for Hooks {
     fn dev(&self, file: &std::fs::File, real: u64) -> u64 {
-        let ino = file.metadata().map(|m| m.ino()).unwrap_or(0);
+        let meta = file.metadata().ok();
+        let ino = meta.as_ref().map(|m| m.ino()).unwrap_or(0);
+        // What the module took for the device must be the file's st_dev.
+        if let Some(m) = &meta {
+            if real != m.dev() {
+                CTIME_SOURCE_MISMATCH.store(true, std::sync::atomic::Ordering::Relaxed);
+            }
+        }
         let st = state();
         match st.by_ino.get(&ino).and_then(|s| st.files[*s].as_ref()) {
             Some(f) => f.dev,
@@ -466,7 +473,7 @@ fn run_history(plan: &Plan, stats: &mut Stats, log: &mut LogHash, vs: &mut Vec<V
         stats.ops_executed += 1;
         // ---- C19 invariants after every call ---------------------------
         if CTIME_SOURCE_MISMATCH.swap(false, std::sync::atomic::Ordering::Relaxed) {
-            push_v(vs, "C19", "C19.ctime_source", format!("during {} the module derived a file time that is not the file's change time (st_ctime)", op.k), i);
+            push_v(vs, "C19", "C19.ctime_source", format!("during {} the module derived a file's change time or device from something other than st_ctime / st_dev", op.k), i);
         }
         let (after, voucher) = current_base();
         log.u64(after);
